@@ -34,6 +34,18 @@ Theorem lookup_spec : forall t root k,
 Proof. exact lookup_spec_proof. Qed.
 Print Assumptions lookup_spec.
 
+(* _Node.minimum / maximum of the root: first / last element of the traversal, IndexError on the
+   empty tree *)
+Theorem minimum_spec : forall t root, wf t root ->
+  minimum root = match elements root with e :: _ => Ok e | [] => Internal eIndex end.
+Proof. exact minimum_root. Qed.
+Print Assumptions minimum_spec.
+
+Theorem maximum_spec : forall t root, wf t root ->
+  maximum root = match rev (elements root) with e :: _ => Ok e | [] => Internal eIndex end.
+Proof. exact maximum_root. Qed.
+Print Assumptions maximum_spec.
+
 (* BTree.insert_element: size bookkeeping, result, content *)
 Theorem size_spec_insert : forall b e io,
   bwf b -> b_immut b = false ->
@@ -151,7 +163,10 @@ Print Assumptions cursor_position_unique.
    anywhere, any number of live cursors - the two answer every step identically: element
    returned by insert / delete_key / delete_exact (incl. its ValueErrors), lookups, len, in-order
    items, __iter__, KeyError of the mapping API, set membership, Immutable on frozen trees,
-   cursor next / prev results before and after arbitrary mutations. *)
+   cursor next / prev results before and after arbitrary mutations, iterators advanced between
+   mutations, minimum / maximum, and the collections.abc mixins pop / popitem / clear / setdefault /
+   update (MutableMapping) and remove / pop / clear (MutableSet) incl. their KeyError-before-
+   Immutable order on frozen trees (36 operations). *)
 Theorem history_refines : forall xs, steps (mkW [] []) (map enc xs) = rsteps (mkRW [] []) xs.
 Proof. exact history_refines_proof. Qed.
 Print Assumptions history_refines.
